@@ -1167,9 +1167,129 @@ def c11_b64_group(mir, ctx):
     return [g]
 
 
+def c11_listing_group(mir, ctx):
+    """Streams::next, its skip loop unrolled (<= 2 container entries per call): which entries are
+    listed and under what name.  Container entries, Entry::is_stream, the comparisons of the entry's
+    RAW name with the special stream names and streamname::decode are uninterpreted."""
+    cands = [f for n, fs in mir.fns.items() for f in fs if n.endswith("::next") and f.args and "Streams<" in f.args[0][1]]
+    if len(cands) != 1:
+        raise EncodingError("Streams::next not found uniquely (%d)" % len(cands))
+    fn = cands[0]
+    ssrc = open(os.path.join(REPO, "src/internal/streamname.rs")).read()
+    special = {}
+    for cname in ("DIGITAL_SIGNATURE_STREAM_NAME", "MSI_DIGITAL_SIGNATURE_EX_STREAM_NAME", "SUMMARY_INFO_STREAM_NAME", "DOCUMENT_SUMMARY_INFO_STREAM_NAME"):
+        mm = re.search(r"const %s: &str =\s*\"((?:[^\"\\]|\\.)*)\"" % cname, ssrc)
+        if not mm:
+            raise EncodingError("constant %s not found in streamname.rs" % cname)
+        special[cname] = mm.group(1)
+    eqs = {}
+    n_entry = [0]
+
+    def what(ex, a):
+        v = ex.load(a)
+        while isinstance(v, RefV):
+            v = ex.load(v.target)
+        return v.s if isinstance(v, StrV) else getattr(v, "what", repr(v))
+
+    def eq_term(raw, const):
+        key = (raw, const)
+        if key not in eqs:
+            eqs[key] = ctx.fresh_bool("raw_name_is_special").term
+        return eqs[key]
+
+    def unesc(t):
+        return re.sub(r"\\u\{([0-9a-fA-F]+)\}", lambda m: chr(int(m.group(1), 16)), t)
+
+    mir_text = open(mir._path).read()
+
+    def canon(c):
+        # a constant operand: its text, or the name of the constant
+        mp = re.search(r"promoted\[(\d+)\]", c)
+        if mp:
+            md = re.search(r"^const %s::promoted\[%s\]: [^\n]*\{(.*?)^\}" % (re.escape(fn.name), mp.group(1)), mir_text, re.M | re.S)
+            if not md:
+                raise EncodingError("promoted constant %s of %s not found in the MIR dump" % (mp.group(0), fn.name))
+            c = " ".join(re.findall(r"= const ([^;]+);", md.group(1)))
+        for cname, txt in special.items():
+            if unesc(c) == unesc(txt) or unesc(c.strip('"')) == unesc(txt) or re.split(r"::|\s", c.strip())[-1] == cname:
+                return cname
+        return c
+
+    def m_entries_next(ex, callee, args, pc, events):
+        k = sum(1 for e in events if e[0] == "entry")
+        return [(pc, events + [("entry", "entry#%d" % k)], EnumV(variant=1, fields=[OpaqueV("entry#%d" % k)])),
+                (pc, events + [("entries-done",)], EnumV(variant=0, fields=[]))]
+
+    def m_is_stream(ex, callee, args, pc, events):
+        b = ctx.fresh_bool("is_stream")
+        return [(pc, events + [("is_stream", what(ex, args[0]), b.term)], BoolV(b.term))]
+
+    def m_name(ex, callee, args, pc, events):
+        return [(pc, events, OpaqueV("raw-name(%s)" % what(ex, args[0])))]
+
+    def m_eq(ex, callee, args, pc, events):
+        a, b = what(ex, args[0]), what(ex, args[1])
+        if b.startswith("raw-name(") and not a.startswith("raw-name("):
+            a, b = b, a
+        t = eq_term(a, canon(b))
+        return [(pc, events + [("cmp", a, canon(b), t)], BoolV(t))]
+
+    def m_decode(ex, callee, args, pc, events):
+        a = what(ex, args[0])
+        b = ctx.fresh_bool("is_table")
+        return [(pc, events + [("decode", a, b.term)], TupleV([OpaqueV("decoded(%s)" % a), BoolV(b.term)]))]
+
+    models = [(r"<Entries<'_, F> as Iterator>::next$", m_entries_next), (r"Entry::is_stream$", m_is_stream), (r"Entry::name$", m_name),
+              (r"as PartialEq(<.*>)?>::eq$", m_eq), (r"^decode$|streamname::decode$", m_decode)]
+    lens = {}
+    it_models, what_of, coll = iter_models(ctx, lens)
+    ex = M.Exec(mir, ctx, models=models + it_models, havoc_unknown=True)
+    ex.max_revisit = 3
+    ex.new_obj("streams", [OpaqueV("entries"), OpaqueV("phantom")])
+    outs = ex.run(fn, [M.ObjV("streams")])
+    from .mir_protocol import _confirm as _scenarios
+    g = Group("stream_listing", ["stream::<Streams as Iterator>::next (skip loop unrolled)"], confirm=_scenarios,
+              note="per container entry visited by Streams::next: it is skipped exactly when it is not a stream, or its RAW container name "
+                   "equals one of the four special stream names, or its name decodes as a table stream; otherwise next() returns it, and the "
+                   "name returned is streamname::decode of that entry's raw name; None is returned only when the container has no more entries")
+    nret = 0
+    for k, o in enumerate(outs):
+        if o.kind != "return":
+            continue
+        nret += 1
+        evs = o.events
+        entries = [e[1] for e in evs if e[0] == "entry"]
+        v = o.value
+        some = isinstance(v, EnumV) and v.variant in (1, "Some")
+        if not some and not any(e[0] == "entries-done" for e in evs):
+            g.queries.append(Query("early_none_%d" % k, o.pc, "unsat", note="next() returns None although the container still has entries"))
+        for i, en in enumerate(entries):
+            raw = "raw-name(%s)" % en
+            iss = [e[2] for e in evs if e[0] == "is_stream" and e[1] == en]
+            dec = [e[2] for e in evs if e[0] == "decode" and e[1] == raw]
+            is_stream = iss[0] if iss else ctx.fresh_bool("is_stream_unasked").term
+            is_table = dec[0] if dec else ctx.fresh_bool("is_table_unasked").term
+            specials = [eq_term(raw, cname) for cname in special]
+            listable = "(and %s (not %s) %s)" % (is_stream, is_table, " ".join("(not %s)" % t for t in specials))
+            returned_this = some and i == len(entries) - 1
+            if returned_this:
+                g.queries.append(Query("lists_%d_%d" % (k, i), o.pc + ["(not %s)" % listable], "unsat",
+                                       note="next() lists an entry that is not a stream, or is one of the special streams, or is a table stream"))
+                got = getattr(v.fields[0], "what", repr(v.fields[0]))
+                if got != "decoded(%s)" % raw:
+                    g.queries.append(Query("name_%d_%d" % (k, i), o.pc, "unsat", note="next() returns %s, not the decoded raw name of the entry it lists" % got[:80]))
+            else:
+                g.queries.append(Query("skips_%d_%d" % (k, i), o.pc + [listable], "unsat",
+                                       note="next() skips an entry that is a stream, is none of the four special streams (by its raw name) and is not a table stream"))
+        g.witness.append(Query("w_%d" % k, o.pc, "sat"))
+    if nret < 4:
+        raise EncodingError("stream listing: only %d returning paths" % nret)
+    return [g]
+
+
 def c11_all(mir, ctx):
     from .mir_protocol import protocol_groups
-    return c11_b64_group(mir, ctx) + protocol_groups(mir, ctx, {"reject"})
+    return c11_b64_group(mir, ctx) + protocol_groups(mir, ctx, {"reject"}) + c11_listing_group(mir, ctx)
 
 
 def iter_models(ctx, lens, consistent=False):
@@ -1898,6 +2018,11 @@ def c12_select_gate_group(mir, ctx):
 # C05: Update::exec keeps cells valid and primary keys unique and ordered
 # --------------------------------------------------------------------------
 
+def last_mut_guard(evs):
+    ms = [n for n, e in enumerate(evs) if e[0] == "mutate"]
+    return ms[-1] if ms else 0
+
+
 def c05_update_group(mir, ctx):
     """Update::exec with its loops unrolled (<= 2 assignments, <= 2 rows; each MIR block visited at
     most 3 times per path), iteration lengths consistent along a path, `Column::is_valid_value`,
@@ -1946,7 +2071,25 @@ def c05_update_group(mir, ctx):
 
     def m_contains(ex, callee, args, pc, events):
         b = ctx.fresh_bool("key_present")
-        return [(pc, events + [("key-check", b.term)], BoolV(b.term))]
+        return [(pc, events + [("key-check", b.term, what_of(ex, args[1]))], BoolV(b.term))]
+
+    def m_desc(fmt, n):
+        return lambda ex, callee, args, pc, events: [(pc, events, OpaqueV(fmt % tuple(what_of(ex, a) for a in args[:n])))]
+
+    def m_sort(ex, callee, args, pc, events):
+        # sort_by_cached_key(rows, closure): the key function is run once on an arbitrary row to see what it builds its key from
+        mm = re.search(r"\{closure@([^}]*)\}", callee)
+        keydesc = "?"
+        if mm:
+            tg = [f for n, fs in mir.fns.items() for f in fs if f.args and ("{closure@%s}" % mm.group(1)) in f.args[0][1]]
+            if len(tg) == 1:
+                saved = copy.deepcopy(ex.heap)
+                outs_ = ex.run(tg[0], [RefV(ex.load(args[1])), RefV(OpaqueV("sorted-row"))], pc, [], 5)
+                ex.heap = saved
+                rets = [o for o in outs_ if o.kind == "return"]
+                if rets:
+                    keydesc = getattr(rets[0].value, "what", repr(rets[0].value))
+        return [(pc, events + [("sort", what_of(ex, args[0]), keydesc)], TupleV([]))]
 
     def m_any(ex, callee, args, pc, events):
         mm = re.search(r"any::<\{closure@([^}]*)\}>", callee)
@@ -1993,7 +2136,9 @@ def c05_update_group(mir, ctx):
         (r"ValueRef::remove$", m_event("mutate")), (r"ValueRef::create$", m_event("mutate", lambda: OpaqueV("new-ref"))),
         (r"HashSet::<Vec<Value>>::contains::<", m_contains), (r"HashSet::<Vec<Value>>::insert$", m_event("key-insert", lambda: BoolV("true", True))),
         (r"BTreeMap::<Vec<Value>, .*>::contains_key::<", m_contains), (r"BTreeMap::<Vec<Value>, .*>::insert$", m_event("key-insert", lambda: EnumV(variant=0, fields=[]))),
-        (r"sort(_unstable)?(_by)?(_cached)?(_key)?::<", m_event("sort")),
+        (r"sort(_unstable)?(_by)?(_cached)?(_key)?::<", m_sort),
+        (r"Table::primary_key_indices$", lambda ex, callee, args, pc, events: [(pc, events, OpaqueV("pki(%s)" % coll(what_of(ex, args[0]))))]),
+        (r"as Iterator>::map::<", m_desc("map(%s)", 1)), (r"as Iterator>::collect::<Vec<Value>>$", m_desc("vec(%s)", 1)),
         (r"Value::to_bool$", lambda ex, callee, args, pc, events: [(pc, events, BoolV(ctx.fresh_bool("matches").term))]),
     ] + it_models
 
@@ -2004,7 +2149,7 @@ def c05_update_group(mir, ctx):
 
     ex = M.Exec(mir, ctx, models=models, stop_at=stop_at, havoc_unknown=True, max_paths=400000)
     ex.max_revisit = 3
-    ex.no_inline = [r"Table::(stream_name|name|columns|long_string_refs|read_rows|primary_key_indices)$", r"Expr::(eval|column_names)$", r"Row::new$",
+    ex.no_inline = [r"Table::(stream_name|name|columns|long_string_refs|read_rows)$", r"Expr::(eval|column_names)$", r"Row::new$",
                     r"ValueRef::to_value$", r"closure"]
     qsrc = open(os.path.join(REPO, "src/internal/query.rs")).read()
     ufields = struct_fields(qsrc, "Update")
@@ -2060,6 +2205,13 @@ def c05_update_group(mir, ctx):
                                     note="cells of a primary-key column are rewritten although not every row's (%d rows) resulting key was tested for collisions first (%d tests)" % (nrows, len(checks))))
         for c in checks:
             gk.queries.append(Query("collide_%d_%d" % (k, len(gk.queries)), o.pc + [c[1]], "unsat", note="a key collision found by the membership test still reaches the table rewrite"))
+            if not re.match(r"^vec\(map\(it#\d+\|(slice:)*pki\(", c[2]):
+                gk.queries.append(Query("keyshape_%d_%d" % (k, len(gk.queries)), o.pc + [some_pk], "unsat",
+                                        note="the key tested for collisions is not built by mapping over Table::primary_key_indices() (it is %s)" % c[2][:100]))
+        for e in evs[last_mut_guard(evs):]:
+            if e[0] == "sort" and not re.match(r"^vec\(map\(it#\d+\|(slice:)*pki\(", e[2]):
+                gk.queries.append(Query("sortshape_%d_%d" % (k, len(gk.queries)), o.pc + [some_pk], "unsat",
+                                        note="the rows are re-sorted by a key that is not built by mapping over Table::primary_key_indices() (it is %s)" % e[2][:100]))
         last_mut = max(n for n, e in enumerate(evs) if e[0] == "mutate")
         if not any(e[0] == "sort" for e in evs[last_mut:]):
             gk.queries.append(Query("nosort_%d" % k, o.pc + [some_pk], "unsat", note="cells of a primary-key column are rewritten and the rows are written back without being re-sorted by key"))
